@@ -24,7 +24,7 @@ func init() {
 			"with 0 accidentals the flat/sharp flag is reported as sharp (false): the circle of fifths has no flats there",
 			"tempo domain is the set of BPM values 60e6/f for every 24-bit field value f >= 1 (every representable tempo)",
 		},
-		Require: []string{"shared_out_variable_reads", "text_len_ge_128", "seqdata_len_ge_128", "tempo_fields", "named_keys", "key_tuples", "timesig_tuples", "meta_msgs_classified", "text_dictionary_points", "nil_pattern_calls"},
+		Require: []string{"appends_to_returned_messages", "shared_out_variable_reads", "text_len_ge_128", "seqdata_len_ge_128", "tempo_fields", "named_keys", "key_tuples", "timesig_tuples", "meta_msgs_classified", "text_dictionary_points", "nil_pattern_calls"},
 		Run:     runC15,
 	})
 }
@@ -81,6 +81,13 @@ func metaLayout(c *mon.Ctx, ctor string, args any, m smf.Message, typ byte, payl
 		return false
 	}
 	return true
+}
+
+func keepOr(l [][]byte, k int) []byte {
+	if k < 0 || k >= len(l) {
+		return nil
+	}
+	return l[k]
 }
 
 func runC15(c *mon.Ctx) {
@@ -200,6 +207,47 @@ func runC15(c *mon.Ctx) {
 			}
 		}
 		c.DistinctBytes([]byte(fmt.Sprint("reuse", sizes)), items[0].keep)
+	})
+
+	// ---- returned messages belong to the caller: growing one of them with append (framing it with a delta
+	// and an end-of-track, say) must not reach into any other message
+	c.Each("append-to-returned", c.N(4, 64), func(i int64, r *mon.Rand) {
+		msgs := constructedSMFMessages(r)
+		keep := make([][]byte, len(msgs))
+		for k := range msgs {
+			keep[k] = append([]byte(nil), msgs[k]...)
+		}
+		order := r.Perm(len(msgs))
+		if i%2 == 0 {
+			for k := range order {
+				order[k] = k
+			}
+		}
+		check := func(k, q int) bool {
+			if !bytes.Equal(msgs[q], keep[q]) {
+				c.Violation("constructed-message-changed", fmt.Sprintf("appending 4 bytes to the message returned by constructor call %d (% X) changed the message returned by call %d, which the caller never touched: now % X, constructed as % X", k, head(keepOr(keep, k), 10), q, head(msgs[q], 12), head(keep[q], 12)), fmt.Sprintf("%d constructed messages, appended in order %v...", len(msgs), head32(order, 8)), mon.Hex(head(keep[q], 16)), mon.Hex(head(msgs[q], 16)))
+				return false
+			}
+			return true
+		}
+		for _, k := range order {
+			if bytes.Equal(msgs[k], smf.EOT) {
+				continue
+			}
+			_ = append(msgs[k], 0x00, 0xFF, 0x2F, 0x00)
+			c.Count("appends_to_returned_messages", 1)
+			for q := k - 4; q <= k+4; q++ {
+				if q >= 0 && q < len(msgs) && q != k && !check(k, q) {
+					return
+				}
+			}
+		}
+		for q := range msgs {
+			if !check(-1, q) {
+				return
+			}
+		}
+		c.DistinctBytes([]byte(fmt.Sprint("append", i)))
 	})
 
 	// ---- text contents from a dictionary of 'special' prefixes, suffixes and whole values
